@@ -219,7 +219,7 @@ chk("C13",
     "disk a kill leaves denotes the state before or after the request; on every such disk a new connection is accepted and echoes the denoted state; "
     "and every continuation behaves as the 3-state reference machine from that state (so the interrupted step is retried exactly when the echo asks "
     "for it and searches are answered from the acknowledged index). Client: the extracted persisting handlers are proved to use only atomic "
-    "replace steps in the order data-before-flag, and the semantic statement is proved for the extracted program by kernel evaluation of the client interpreter with a crash budget (Model/ClientCrash.lean) run against the reference server: for every persisting step of the documented workflow and every budget of completed mutations, the re-created client redoes the interrupted step or finds it completed and the workflow ends in a search whose index and token come from the same key (client_crash_recovers, crash_points_are_covered); other client histories, and the command layer (commands.create_service by name incl. the shared name table service_mapping.json - where this check found and dd532e0 repaired a genuine defect), are decided by exhaustive enumeration of all client crash points on "
+    "replace steps in the order data-before-flag, and the semantic statement is proved for the extracted program by kernel evaluation of the client interpreter with a crash budget (Model/ClientCrash.lean) run against the reference server: for every persisting step of the documented workflow and every budget of completed mutations, the re-created client redoes the interrupted step or finds it completed and the workflow ends in a search whose index and token come from the same key (client_crash_recovers, crash_points_are_covered), also when the recovery itself is interrupted at any of its crash points (client_double_crash_recovers); other client histories, and the command layer (commands.create_service by name incl. the shared name table service_mapping.json - where this check found and dd532e0 repaired a genuine defect), are decided by exhaustive enumeration of all client crash points on "
     "the real code (kill before every mutation of create/key/encrypt/both acknowledgement handlers and of create-by-name, restart, finish the workflow, compare the search "
     "result / the name resolution). Tie: translator + the interposer's logged mutation sequence of every handler must equal the extracted primitive list + disk and echo "
     "after a kill at every k must equal the interpreter's.",
